@@ -86,6 +86,9 @@ pub fn problems_for(tier: Tier, scope: Scope) -> Vec<(String, PProblem)> {
     }
     // clustering x job attributes: every scope; of the hard rules those which do not need the schedule
     out.extend(family_cluster_attr().into_iter().map(|p| ("cluster".to_string(), p)));
+    // clustering x time windows: every scope; the service of a clustered job starts inside one of its windows
+    out.extend(family_cluster_tw().into_iter().map(|p| ("cluster".to_string(), p)));
+    out.extend(family_cluster_tw_grid(tier).into_iter().map(|p| ("cluster".to_string(), p)));
     out
 }
 
@@ -144,7 +147,7 @@ fn judge_solved(family: &str, problem: &PProblem, scen: Value, scope: Scope, sol
                         || f.rule.starts_with("C03:commute-")
                         || f.rule == "C03:statistic-commuting"
                         || f.rule == "C03:statistic-parking"
-                        || ["C01:skills", "C01:group", "C01:compatibility", "C01:capacity", "C01:negative-load"].contains(&f.rule.as_str())
+                        || ["C01:skills", "C01:group", "C01:compatibility", "C01:capacity", "C01:negative-load", "C01:cluster-time-window"].contains(&f.rule.as_str())
                 })
                 .filter(|f| family != "reqbreak" || f.rule.starts_with("C02:") || f.rule.starts_with("C01:required-break") || f.rule == "C01:capacity" || f.rule == "C03:required-break-outside-tour")
                 .map(|f| (finding_key(&f, family, problem), f))
